@@ -737,8 +737,8 @@ def initialize_X_and_G(
         )
     # restore the past X and G
     for x, g in zip(
-        checkpoint.x - np.cumsum(checkpoint.hess_inv.sk, axis=0),
-        checkpoint.jac - np.cumsum(checkpoint.hess_inv.yk, axis=0),
+        checkpoint.x - np.cumsum(checkpoint.hess_inv.sk[::-1], axis=0)[::-1],
+        checkpoint.jac - np.cumsum(checkpoint.hess_inv.yk[::-1], axis=0)[::-1],
     ):
         if len(X) > maxcor:
             X.popleft()
